@@ -1,54 +1,61 @@
-import CnlProofs.Elastic
-import CnlProofs.Rounding
-import CnlProofs.Overflow
-import CnlModel.StaticExpr
-import CnlSpec.Static
+import CnlProofs.StaticT
 /-!
-# Lemmas for C11: the static_number composition is never silently wrong
+# Lemmas for C11: the static_number composition is never silently wrong (the `Narrowest = int` instances, histories)
 
-Per node: the representation operator under a rounding tag is the built-in one except for `/`
-(`repOp_eq_cBin`), so `+ - *` are the elastic operators of C05 on operands aligned by `<< constant`
-(`scaleUp_spec`); `/` is the rounding division of C08 in a storage type that holds both operands
-(`elDiv_spec`); the conversion is an exact rescaling or a rounding division by `2^k`, followed by the
-overflow-checked narrowing (`convert_spec`).  Histories: induction over `SExpr` (`eval_agrees`).
+The typed lemmas (every narrowest type, multi-word storage, built-in operands) are in `CnlProofs/StaticT.lean`; this
+file derives the instances for `Narrowest = int` — now for every digit count, the storage beyond 127 digits being
+the multi-word two's-complement integer of C10 —, the shifts, and the induction over histories (`eval_agrees`).
 Lean core only.
 -/
 namespace Cnl.Static
 open Cnl Cnl.Spec Cnl.Elastic Cnl.Rounding
 
-/-! ## `Res` plumbing -/
-
-@[simp] theorem bind_trap {α β : Type} (p : Bool) (f : α → Res β) : ((Res.trap p : Res α) >>= f) = .trap p := rfl
-@[simp] theorem bind_throws {α β : Type} (p : Bool) (f : α → Res β) : ((Res.throws p : Res α) >>= f) = .throws p := rfl
-@[simp] theorem bind_unreachable {α β : Type} (m : String) (f : α → Res β) :
-    ((Res.unreachable m : Res α) >>= f) = .unreachable m := rfl
-@[simp] theorem bind_oob {α β : Type} (i : Nat) (f : α → Res β) : ((Res.oob i : Res α) >>= f) = .oob i := rfl
-@[simp] theorem bind_diverges {α β : Type} (f : α → Res β) : ((Res.diverges : Res α) >>= f) = .diverges := rfl
-@[simp] theorem bind_ill {α β : Type} (m : String) (f : α → Res β) : ((Res.ill m : Res α) >>= f) = .ill m := rfl
-
-theorem rmode_eq_modeOf (m : RdMode) : rmode m = modeOf m := by cases m <;> rfl
-
 /-! ## ranges -/
 
 theorem toE_inRange {x : SNum} (hx : x.InRange) : (toE x).InRange := hx
+
+theorem typed_inRange {x : SNum} (hx : x.InRange) : (⟨narrowest, x⟩ : TNum).InRange := hx
 
 theorem fits_of_inRange {x : SNum} (hx : x.InRange) : Fits x.digits true x.value := hx
 
 theorem inRange_of_fits_true {d : Nat} {e v : Int} (h : Fits d true v) : (⟨d, e, v⟩ : SNum).InRange := h
 
+theorem exactBinT_int (m : RoundMode) (op : BinOp) (x y : SNum) :
+    (exactBinT m op ⟨narrowest, x⟩ ⟨narrowest, y⟩).x = exactBin m op x y := by
+  simp [exactBinT, narrowest, i32]
+
+theorem exactBinT_int_inRange {m : RoundMode} {op : BinOp} {x y : SNum}
+    (h : (exactBinT m op ⟨narrowest, x⟩ ⟨narrowest, y⟩).InRange) : (exactBin m op x y).InRange := by
+  have e := exactBinT_int m op x y
+  have hs : (exactBinT m op ⟨narrowest, x⟩ ⟨narrowest, y⟩).n.signed = true := by
+    simp [exactBinT, resN, narrowest, i32]
+  have h' : Fits (exactBinT m op ⟨narrowest, x⟩ ⟨narrowest, y⟩).x.digits true
+      (exactBinT m op ⟨narrowest, x⟩ ⟨narrowest, y⟩).x.value := by
+    have h2 := h
+    unfold TNum.InRange ENum.InRange TNum.toE at h2
+    simp only [hs] at h2
+    exact h2
+  rw [e] at h'
+  exact h'
+
 /-! ## alignment: `scale<k>` -/
 
+theorem rep_facts {D : Nat} {rep : IntTy} (hR : storage narrowest D = some rep) :
+    rep.signed = true ∧ D ≤ rep.digits ∧ 1 ≤ rep.bits ∧ rep.digits < rep.bits := by
+  have ⟨hs, hd, hb⟩ := storage_spec hR
+  have hs' : rep.signed = true := hs
+  have hb1 : 1 ≤ rep.bits := by omega
+  exact ⟨hs', Nat.le_trans (Nat.le_max_right _ _) hd, hb1, digits_lt_bits hs' hb1⟩
+
 /-- `x << constant<k>` for a signed-`int`-narrowest elastic number: no hypothesis on the digits -/
-theorem shl_toE (x : SNum) (k : Nat) (hx : x.InRange) (hwf : ∀ m, shlConst (toE x) k ≠ .ill m) :
-    ∃ n, shlConst (toE x) k = .ok ⟨x.digits + k, n, x.value * 2^k⟩ := by
-  cases hR : repTy (x.digits + k) narrowest with
+theorem shl_toE (x : SNum) (k : Nat) (hx : x.InRange) (hwf : ∀ m, elShlConst (toE x) k ≠ .ill m) :
+    ∃ n, elShlConst (toE x) k = .ok ⟨x.digits + k, n, x.value * 2^k⟩ := by
+  cases hR : storage narrowest (x.digits + k) with
   | none =>
-    have : shlConst (toE x) k = .ill "digits exceed the widest integer" := by simp only [shlConst, toE, hR]
+    have : elShlConst (toE x) k = .ill "no storage for the digits" := by simp only [elShlConst, toE, hR]
     exact absurd this (hwf _)
   | some rep =>
-    have ⟨hRs, hRd, hRb⟩ := setDigits_spec hR
-    have hRs' : rep.signed = true := hRs
-    have hb1 : 1 ≤ rep.bits := by omega
+    have ⟨hRs', hRd, hb1, _⟩ := rep_facts hR
     have hxR : rep.InRange x.value :=
       inRange_of_fits (by omega) (fits_of_inRange hx) (fun h => by rw [hRs'] at h; cases h)
     have hPs : (promote rep).signed = true := promote_signed_of_signed hRs'
@@ -59,14 +66,14 @@ theorem shl_toE (x : SNum) (k : Nat) (hx : x.InRange) (hwf : ∀ m, shlConst (to
     have hs : Fits (x.digits + k) true (x.value * 2^k) := shl_bound (k := k) (fits_of_inRange hx)
     have hsP : (promote rep).InRange (x.value * 2^k) :=
       inRange_of_fits (by have := promote_digits_le hb1; omega) hs (fun h => by rw [hPs] at h; cases h)
-    have h1 : shlConst (toE x) k =
-        (match repTy (x.digits + k) ⟨32, true⟩ with
+    have h1 : elShlConst (toE x) k =
+        (match storage ⟨32, true⟩ (x.digits + k) with
          | some F => .ok ⟨x.digits + k, ⟨32, true⟩, F.wrap (x.value * 2^k)⟩
-         | none => .ill "digits exceed the widest integer") := by
-      simp only [shlConst, toE, hR, Cnl.convert, IntTy.wrap_id hb1 hxR, cBin, hk, ite_false, Int.toNat_natCast,
+         | none => .ill "no storage for the digits") := by
+      simp only [elShlConst, toE, hR, Cnl.convert, IntTy.wrap_id hb1 hxR, cBin, hk, ite_false, Int.toNat_natCast,
         IntTy.wrap_id (promote_bits_ge hb1) hsP, hPs]
       rfl
-    have hR' : repTy (x.digits + k) ⟨32, true⟩ = some rep := hR
+    have hR' : storage ⟨32, true⟩ (x.digits + k) = some rep := hR
     rw [hR'] at h1
     have hsR : rep.InRange (x.value * 2^k) :=
       inRange_of_fits (by omega) hs (fun h => by rw [hRs'] at h; cases h)
@@ -76,160 +83,13 @@ theorem shl_toE (x : SNum) (k : Nat) (hx : x.InRange) (hwf : ∀ m, shlConst (to
 /-- `scale<k>` either multiplies by `2^k` exactly, adding `k` digits, or is ill-formed -/
 theorem scaleUp_spec (x : SNum) (k : Nat) (hx : x.InRange) :
     scaleUp x k = .ok ⟨x.digits + k, x.exp - k, x.value * 2^k⟩ ∨ ∃ m, scaleUp x k = .ill m := by
-  by_cases hk : k = 0
-  · subst hk; left
-    simp [scaleUp]
-  · by_cases hwf : ∀ m, shlConst (toE x) k ≠ .ill m
-    · obtain ⟨n, h⟩ := shl_toE x k hx hwf
-      left; simp only [scaleUp, hk, ite_false, h]
-    · right
-      have ⟨m, hm⟩ : ∃ m, shlConst (toE x) k = .ill m := Classical.not_forall_not.mp hwf
-      exact ⟨"digits exceed the widest integer", by simp only [scaleUp, hk, ite_false, hm]⟩
+  rcases scaleUpT_spec ⟨narrowest, x⟩ k (typed_inRange hx) with h | ⟨m, h⟩
+  · left; simp only [scaleUp, h, map_ok]
+  · right; exact ⟨m, by simp only [scaleUp, h, map_ill]⟩
 
 theorem scaleUp_inRange {x : SNum} (k : Nat) (hx : x.InRange) :
     (⟨x.digits + k, x.exp - k, x.value * 2^k⟩ : SNum).InRange :=
   shl_bound (k := k) (fits_of_inRange hx)
-
-/-! ## the representation operator under a rounding tag -/
-
-theorem repOp_eq_cBin (c : Cfg) (op : BinOp) (h : op ≠ .div) (a b : TV) : repOp c op a b = cBin op a b := by
-  obtain ⟨ta, va⟩ := a
-  obtain ⟨tb, vb⟩ := b
-  unfold repOp
-  rw [binOp_other intOps c.mode op _ _ h]
-  simp only [intOps, liftTV, Res.map]
-  cases cBin op (ta, va) (tb, vb) <;> rfl
-
-theorem binOpWith_congr {r1 r2 : BinOp → TV → TV → Res TV} (op : BinOp) (x y : ENum)
-    (h : ∀ a b, r1 op a b = r2 op a b) : binOpWith r1 op x y = binOpWith r2 op x y := by
-  unfold binOpWith; simp only [h]
-
-
-/-! ## rounded quotients -/
-
-theorem isRounded_close {m : RoundMode} {a b q : Int} (_hb : b ≠ 0) (h : IsRounded m a b q) :
-    (a - q * b).natAbs < b.natAbs := by
-  cases m with
-  | truncate => exact h.1
-  | floor =>
-    simp only [IsRounded] at h
-    rw [Int.add_mul, Int.one_mul] at h
-    generalize q * b = X at *
-    split at h <;> omega
-  | nearestUp =>
-    simp only [IsRounded] at h
-    rw [Int.mul_assoc, Int.mul_assoc, Int.add_mul, Int.one_mul] at h
-    generalize q * b = X at *
-    split at h <;> omega
-  | nearestAway =>
-    simp only [IsRounded] at h
-    generalize q * b = X at *
-    omega
-
-theorem natAbs_le_of_close {a b q : Int} (h : (a - q * b).natAbs < b.natAbs) : q.natAbs ≤ a.natAbs := by
-  have hm : (q * b).natAbs = q.natAbs * b.natAbs := Int.natAbs_mul ..
-  refine Decidable.byContradiction fun hc => ?_
-  have h1 : (a.natAbs + 1) * b.natAbs ≤ q.natAbs * b.natAbs := Nat.mul_le_mul_right _ (by omega)
-  have h2 : a.natAbs * 1 ≤ a.natAbs * b.natAbs := Nat.mul_le_mul_left _ (by omega)
-  rw [Nat.add_mul, Nat.one_mul] at h1
-  generalize q * b = X at *
-  generalize q.natAbs * b.natAbs = P at *
-  generalize a.natAbs * b.natAbs = R at *
-  omega
-
-/-- a quotient by a non-zero integer, rounded in any mode, is no larger in magnitude than the dividend -/
-theorem roundDiv_natAbs_le (m : RoundMode) (a b : Int) (hb : b ≠ 0) : (roundDiv m a b).natAbs ≤ a.natAbs :=
-  natAbs_le_of_close (isRounded_close hb (roundDiv_isRounded m a b hb))
-
-theorem roundDiv_fits (m : RoundMode) {d : Nat} {a b : Int} (hb : b ≠ 0) (ha : Fits d true a) :
-    Fits d true (roundDiv m a b) := by
-  have h := roundDiv_natAbs_le m a b hb
-  have := natAbs_le_of_bound ha
-  exact bound_of_natAbs_le (by omega)
-
-theorem repOp_div (c : Cfg) {O : IntTy} (hO : 1 ≤ O.bits) {a b : Int} (ha : O.InRange a) (hb : O.InRange b)
-    (hb0 : b ≠ 0) (hq : (promote O).InRange (roundDiv (modeOf c.mode) a b)) :
-    repOp c .div (O, a) (O, b) = .ok (promote O, roundDiv (modeOf c.mode) a b) := by
-  have h := binOp_div_eval c.mode hO hO ha hb (by rw [usualArith_self]; exact promote_inRange hO ha)
-    (by rw [usualArith_self]; exact promote_inRange hO hb) hb0 (by rw [usualArith_self]; exact hq)
-  rw [usualArith_self] at h
-  simp only [repOp, h]
-
-/-! ## `/`: the rounding division in a storage type that holds both operands -/
-
-theorem elDiv_spec (c : Cfg) (x y : SNum) (hx : x.InRange) (hy : y.InRange) (h0 : y.value ≠ 0) :
-    binOpWith (repOp c) .div (toE x) (toE y) = .ok ⟨x.digits, i32, roundDiv (modeOf c.mode) x.value y.value⟩ ∨
-      ∃ m, binOpWith (repOp c) .div (toE x) (toE y) = .ill m := by
-  have hi : (⟨max i32.bits i32.bits, i32.signed || i32.signed⟩ : IntTy) = i32 := by decide
-  cases hR : repTy x.digits i32 with
-  | none => right; refine ⟨"result digits exceed the widest integer", ?_⟩; simp only [binOpWith, toE, policy, narrowest, hi, hR]
-  | some R =>
-    have ⟨hRs, hRd, hRb⟩ := setDigits_spec hR
-    have hRs' : R.signed = true := hRs
-    cases hO : setDigits R.signed (operandDigits R x.digits y.digits) with
-    | none => right; refine ⟨"operand digits exceed the widest integer", ?_⟩; simp only [binOpWith, toE, policy, narrowest, hi, hR, hO]
-    | some O =>
-      left
-      have ⟨hOs, hOd, hOb⟩ := setDigits_spec hO
-      have hOs' : O.signed = true := by rw [hOs, hRs']
-      unfold operandDigits at hOd
-      have hO1 : 1 ≤ O.bits := by omega
-      have hPs : (promote O).signed = true := promote_signed_of_signed hOs'
-      have hxO : O.InRange x.value :=
-        inRange_of_fits (by omega) (fits_of_inRange hx) (fun h => by rw [hOs'] at h; cases h)
-      have hyO : O.InRange y.value :=
-        inRange_of_fits (by omega) (fits_of_inRange hy) (fun h => by rw [hOs'] at h; cases h)
-      have hq := roundDiv_fits (modeOf c.mode) h0 (fits_of_inRange hx)
-      have hqP : (promote O).InRange (roundDiv (modeOf c.mode) x.value y.value) :=
-        inRange_of_fits (by have := promote_digits_le hO1; omega) hq (fun h => by rw [hPs] at h; cases h)
-      have hqR : R.InRange (roundDiv (modeOf c.mode) x.value y.value) :=
-        inRange_of_fits (by omega) hq (fun h => by rw [hRs'] at h; cases h)
-      have hF : repTy x.digits ⟨i32.bits, true⟩ = some R := hR
-      simp only [binOpWith, toE, policy, narrowest, hi, hR, hO, Cnl.convert, IntTy.wrap_id hO1 hxO,
-        IntTy.wrap_id hO1 hyO, repOp_div c hO1 hxO hyO h0 hqP, hPs,
-        hF, IntTy.wrap_id (by omega : 1 ≤ R.bits) hqR]
-      rfl
-
-/-! ## `+ - *`: the elastic operators of C05 -/
-
-/-- the exact value of `+ - *` -/
-def exact3 (op : BinOp) (a b : Int) : Int :=
-  match op with
-  | .add => a + b
-  | .sub => a - b
-  | _ => a * b
-
-def digits3 (op : BinOp) (a b : Nat) : Nat :=
-  match op with
-  | .mul => prodDigits a b
-  | _ => max a b + 1
-
-/-- `+ - *` of the elastic layer on two in-range operands: exact, in the policy's digits -/
-theorem elBin_spec (c : Cfg) (op : BinOp) (hop : op = .add ∨ op = .sub ∨ op = .mul) (a b : SNum)
-    (ha : a.InRange) (hb : b.InRange) :
-    (∃ n, binOpWith (repOp c) op (toE a) (toE b)
-        = .ok ⟨digits3 op a.digits b.digits, n, exact3 op a.value b.value⟩ ∧
-        Fits (digits3 op a.digits b.digits) true (exact3 op a.value b.value)) ∨
-      ∃ m, binOpWith (repOp c) op (toE a) (toE b) = .ill m := by
-  have hnd : op ≠ .div := by rcases hop with h | h | h <;> subst h <;> decide
-  rw [binOpWith_congr op _ _ (repOp_eq_cBin c op hnd), ← binOp_eq_binOpWith]
-  by_cases hwf : ∀ m, Elastic.binOp op (toE a) (toE b) ≠ .ill m
-  · left
-    rcases hop with h | h | h <;> subst h
-    · obtain ⟨d, sg, n, hp, h1, he, _⟩ := binOp_wf .add (toE a) (toE b) ha hb (by simp) hwf
-      simp only [AOp.toBin, policy, toE, narrowest, Option.some.injEq, Prod.mk.injEq] at hp
-      obtain ⟨rfl, rfl⟩ := hp
-      exact ⟨n, h1, he⟩
-    · obtain ⟨d, sg, n, hp, h1, he, _⟩ := binOp_wf .sub (toE a) (toE b) ha hb (by simp) hwf
-      simp only [AOp.toBin, policy, toE, narrowest, Option.some.injEq, Prod.mk.injEq] at hp
-      obtain ⟨rfl, rfl⟩ := hp
-      exact ⟨n, h1, he⟩
-    · obtain ⟨d, sg, n, hp, h1, he, _⟩ := binOp_wf .mul (toE a) (toE b) ha hb (by simp) hwf
-      simp only [AOp.toBin, policy, toE, narrowest, Option.some.injEq, Prod.mk.injEq] at hp
-      obtain ⟨rfl, rfl⟩ := hp
-      exact ⟨n, h1, he⟩
-  · right
-    exact Classical.not_forall_not.mp hwf
 
 /-! ## the operators of a static number -/
 
@@ -237,47 +97,29 @@ theorem binOp_addsub_spec (c : Cfg) (op : BinOp) (hop : op = .add ∨ op = .sub)
     (hx : x.InRange) (hy : y.InRange) :
     (Static.binOp c op x y = .ok (exactBin (rmode c.mode) op x y) ∧ (exactBin (rmode c.mode) op x y).InRange) ∨
       ∃ m, Static.binOp c op x y = .ill m := by
-  have hb : Static.binOp c op x y =
-      (scaleUp x (x.exp - min x.exp y.exp).toNat >>= fun a =>
-       scaleUp y (y.exp - min x.exp y.exp).toNat >>= fun b =>
-       binOpWith (repOp c) op (toE a) (toE b) >>= fun z =>
-       .ok ⟨z.digits, min x.exp y.exp, z.value⟩) := by
-    rcases hop with h | h <;> subst h <;> rfl
-  rw [hb]
-  rcases scaleUp_spec x (x.exp - min x.exp y.exp).toNat hx with h1 | ⟨m, h1⟩
-  · rcases scaleUp_spec y (y.exp - min x.exp y.exp).toNat hy with h2 | ⟨m, h2⟩
-    · rcases elBin_spec c op (by rcases hop with h | h <;> simp [h]) _ _
-          (scaleUp_inRange (x.exp - min x.exp y.exp).toNat hx)
-          (scaleUp_inRange (y.exp - min x.exp y.exp).toNat hy) with ⟨n, h3, hf⟩ | ⟨m, h3⟩
-      · left
-        simp only [h1, h2, h3, Res.bind_ok]
-        rcases hop with h | h <;> subst h <;> exact ⟨rfl, hf⟩
-      · right; exact ⟨m, by simp only [h1, h2, h3, Res.bind_ok, bind_ill]⟩
-    · right; exact ⟨m, by simp only [h1, h2, Res.bind_ok, bind_ill]⟩
-  · right; exact ⟨m, by simp only [h1, bind_ill]⟩
+  rcases hop with h | h <;> subst h
+  · rcases binOpT_add_spec c _ _ (typed_inRange hx) (typed_inRange hy) with ⟨h, hr⟩ | ⟨m, h⟩
+    · left; exact ⟨by simp only [Static.binOp, h, map_ok, exactBinT_int], exactBinT_int_inRange hr⟩
+    · right; exact ⟨m, by simp only [Static.binOp, h, map_ill]⟩
+  · rcases binOpT_sub_spec c _ _ (typed_inRange hx) (typed_inRange hy) with ⟨h, hr⟩ | ⟨m, h⟩
+    · left; exact ⟨by simp only [Static.binOp, h, map_ok, exactBinT_int], exactBinT_int_inRange hr⟩
+    · right; exact ⟨m, by simp only [Static.binOp, h, map_ill]⟩
 
 theorem binOp_mul_spec (c : Cfg) (x y : SNum) (hx : x.InRange) (hy : y.InRange) :
     (Static.binOp c .mul x y = .ok (exactBin (rmode c.mode) .mul x y) ∧
         (exactBin (rmode c.mode) .mul x y).InRange) ∨
       ∃ m, Static.binOp c .mul x y = .ill m := by
-  have hb : Static.binOp c .mul x y =
-      (binOpWith (repOp c) .mul (toE x) (toE y) >>= fun z => .ok ⟨z.digits, x.exp + y.exp, z.value⟩) := rfl
-  rw [hb]
-  rcases elBin_spec c .mul (by simp) x y hx hy with ⟨n, h3, hf⟩ | ⟨m, h3⟩
-  · left; simp only [h3, Res.bind_ok]; exact ⟨rfl, hf⟩
-  · right; exact ⟨m, by simp only [h3, bind_ill]⟩
+  rcases binOpT_mul_spec c _ _ (typed_inRange hx) (typed_inRange hy) with ⟨h, hr⟩ | ⟨m, h⟩
+  · left; exact ⟨by simp only [Static.binOp, h, map_ok, exactBinT_int], exactBinT_int_inRange hr⟩
+  · right; exact ⟨m, by simp only [Static.binOp, h, map_ill]⟩
 
 theorem binOp_div_spec (c : Cfg) (x y : SNum) (hx : x.InRange) (hy : y.InRange) (h0 : y.value ≠ 0) :
     (Static.binOp c .div x y = .ok (exactBin (rmode c.mode) .div x y) ∧
         (exactBin (rmode c.mode) .div x y).InRange) ∨
       ∃ m, Static.binOp c .div x y = .ill m := by
-  have hb : Static.binOp c .div x y =
-      (binOpWith (repOp c) .div (toE x) (toE y) >>= fun z => .ok ⟨z.digits, x.exp - y.exp, z.value⟩) := rfl
-  rw [hb]
-  rcases elDiv_spec c x y hx hy h0 with h3 | ⟨m, h3⟩
-  · left; simp only [h3, Res.bind_ok, rmode_eq_modeOf]
-    exact ⟨rfl, roundDiv_fits _ h0 (fits_of_inRange hx)⟩
-  · right; exact ⟨m, by simp only [h3, bind_ill]⟩
+  rcases binOpT_div_spec c _ _ (typed_inRange hx) (typed_inRange hy) h0 with ⟨h, hr⟩ | ⟨m, h⟩
+  · left; exact ⟨by simp only [Static.binOp, h, map_ok, exactBinT_int], exactBinT_int_inRange hr⟩
+  · right; exact ⟨m, by simp only [Static.binOp, h, map_ill]⟩
 
 /-- every operator of a static number on in-range operands: the exact (for `/`: correctly rounded)
 result in its declared digits, or an ill-formed instantiation — never a signal, never undefined -/
@@ -296,35 +138,14 @@ theorem binOp_spec (c : Cfg) (op : BinOp) (hop : IsArith op) (x y : SNum)
 theorem neg_spec (x : SNum) (hx : x.InRange) :
     (Static.neg x = .ok ⟨x.digits, x.exp, -x.value⟩ ∧ (⟨x.digits, x.exp, -x.value⟩ : SNum).InRange) ∨
       ∃ m, Static.neg x = .ill m := by
-  by_cases hwf : ∀ m, Elastic.neg (toE x) ≠ .ill m
-  · left
-    have ⟨h1, hf⟩ := neg_wf (toE x) hx hwf
-    exact ⟨by simp only [Static.neg, h1]; rfl, hf⟩
-  · right
-    have ⟨m, hm⟩ : ∃ m, Elastic.neg (toE x) = .ill m := Classical.not_forall_not.mp hwf
-    exact ⟨"digits exceed the widest integer", by simp only [Static.neg, hm]⟩
+  rcases negT_spec ⟨narrowest, x⟩ (typed_inRange hx) with ⟨h, hf⟩ | ⟨m, h⟩
+  · left; exact ⟨by simp only [Static.neg, h, map_ok], hf⟩
+  · right; exact ⟨m, by simp only [Static.neg, h, map_ill]⟩
 
 theorem cmp_spec (op : CmpOp) (x y : SNum) (hx : x.InRange) (hy : y.InRange) :
     Static.cmp op x y = .ok (cmpExact op (alignL x.exp y.exp x.value) (alignR x.exp y.exp y.value)) ∨
-      ∃ m, Static.cmp op x y = .ill m := by
-  have hb : Static.cmp op x y =
-      (scaleUp x (x.exp - min x.exp y.exp).toNat >>= fun a =>
-       scaleUp y (y.exp - min x.exp y.exp).toNat >>= fun b => Elastic.cmp op (toE a) (toE b)) := rfl
-  rw [hb]
-  rcases scaleUp_spec x (x.exp - min x.exp y.exp).toNat hx with h1 | ⟨m, h1⟩
-  · rcases scaleUp_spec y (y.exp - min x.exp y.exp).toNat hy with h2 | ⟨m, h2⟩
-    · simp only [h1, h2, Res.bind_ok]
-      by_cases hwf : ∀ m, Elastic.cmp op
-          (toE ⟨x.digits + (x.exp - min x.exp y.exp).toNat, x.exp - ((x.exp - min x.exp y.exp).toNat : Nat),
-            x.value * 2^(x.exp - min x.exp y.exp).toNat⟩)
-          (toE ⟨y.digits + (y.exp - min x.exp y.exp).toNat, y.exp - ((y.exp - min x.exp y.exp).toNat : Nat),
-            y.value * 2^(y.exp - min x.exp y.exp).toNat⟩) ≠ .ill m
-      · left
-        exact cmp_wf op _ _ (scaleUp_inRange (x.exp - min x.exp y.exp).toNat hx)
-          (scaleUp_inRange (y.exp - min x.exp y.exp).toNat hy) hwf
-      · right; exact Classical.not_forall_not.mp hwf
-    · right; exact ⟨m, by simp only [h1, h2, Res.bind_ok, bind_ill]⟩
-  · right; exact ⟨m, by simp only [h1, bind_ill]⟩
+      ∃ m, Static.cmp op x y = .ill m :=
+  cmpT_spec op ⟨narrowest, x⟩ ⟨narrowest, y⟩ (typed_inRange hx) (typed_inRange hy)
 
 /-! ## conversion -/
 
@@ -363,94 +184,18 @@ theorem narrowDigits_agrees (c : Cfg) (D : Nat) (E : Int) (w : Int)
     · simp only [h1, h2, ite_false, Res.bind_ok]
       exact ⟨rfl, rfl⟩
 
-theorem two_pow_inRange {t : IntTy} {k : Nat} (hs : t.signed = true) (hk : k < t.digits) : t.InRange (2^k) := by
-  have h1 : (2:Int)^(k+1) ≤ 2^t.digits := two_pow_le (by omega)
-  rw [two_pow_succ] at h1
-  have hp := two_pow_pos k
-  unfold IntTy.InRange
-  rw [IntTy.max_eq, IntTy.lowest_eq]
-  simp only [hs, ite_true]
-  omega
-
-/-- the common type of two signed types is signed and has at least the digits of each -/
-theorem usualArith_signed {L R : IntTy} (hL : L.signed = true) (hR : R.signed = true)
-    (hLb : 1 ≤ L.bits) (hRb : 1 ≤ R.bits) :
-    (usualArith L R).signed = true ∧ L.digits ≤ (usualArith L R).digits ∧ R.digits ≤ (usualArith L R).digits := by
-  have pLs := promote_signed_of_signed hL
-  have pRs := promote_signed_of_signed hR
-  have dL := promote_digits_le hLb
-  have dR := promote_digits_le hRb
-  have bL := IntTy.bits_eq_digits_succ pLs (promote_bits_ge hLb)
-  have bR := IntTy.bits_eq_digits_succ pRs (promote_bits_ge hRb)
-  rw [usualArith_key]
-  simp only [key, pLs, pRs, ite_true]
-  split
-  · exact ⟨pLs, dL, by omega⟩
-  · exact ⟨pRs, by omega, dR⟩
-
-/-- division under a rounding tag on operands of two different storage types -/
-theorem repOp_div_mixed (c : Cfg) {L R : IntTy} (hL : 1 ≤ L.bits) (hR : 1 ≤ R.bits) {a b : Int}
-    (haL : L.InRange a) (hbR : R.InRange b) (haT : (usualArith L R).InRange a) (hbT : (usualArith L R).InRange b)
-    (hb0 : b ≠ 0) (hq : (usualArith L R).InRange (roundDiv (modeOf c.mode) a b)) :
-    repOp c .div (L, a) (R, b) = .ok (usualArith L R, roundDiv (modeOf c.mode) a b) := by
-  have h := binOp_div_eval c.mode hL hR haL hbR haT hbT hb0 hq
-  simp only [repOp, h]
-
 /-- the conversion is the overflow-checked narrowing of the rescaled value — exactly rescaled when the
 exponent does not grow, rounded otherwise (a mixed-type rounding division by `2^k`, whose divisor has
 its own storage type) — outside the two open defect classes -/
 theorem convert_core (c : Cfg) (D : Nat) (E : Int) (x : SNum) (hx : x.InRange) (hnd : ¬ KnownDefect c E x) :
     convert c D E x = (narrowDigits c D (rescale (rmode c.mode) E x.exp x.value) >>= fun v => .ok ⟨D, E, v⟩) ∨
       ∃ m, convert c D E x = .ill m := by
-  by_cases hE : E ≤ x.exp
-  · have hb : convert c D E x =
-        (scaleUp x (x.exp - E).toNat >>= fun a => narrowDigits c D a.value >>= fun v => .ok ⟨D, E, v⟩) := by
-      simp only [convert, hE, ite_true]; rfl
-    rw [hb]
-    rcases scaleUp_spec x (x.exp - E).toNat hx with h1 | ⟨m, h1⟩
-    · left; simp only [h1, Res.bind_ok, rescale, hE, ite_true]
-    · right; exact ⟨m, by simp only [h1, bind_ill]⟩
-  · have hlt : x.exp < E := by omega
-    have hk : (E - x.exp).toNat ≤ x.digits := by
-      refine Decidable.byContradiction fun h => hnd (.inl ⟨hlt, by omega⟩)
-    have hq : (roundDiv (rmode c.mode) x.value (2^(E - x.exp).toNat)).natAbs
-        ≤ 2^(x.digits - (E - x.exp).toNat) - 1 := by
-      refine Decidable.byContradiction fun h => hnd (.inr ⟨hlt, hk, by omega⟩)
-    have hk' : ¬ (E - x.exp).toNat > x.digits := by omega
-    cases hR : repTy x.digits narrowest with
-    | none => right; exact ⟨"digits exceed the widest integer", by simp only [convert, hE, ite_false, hR]⟩
-    | some rep =>
-      cases hDr : repTy (1 + (E - x.exp).toNat) narrowest with
-      | none =>
-        right
-        exact ⟨"digits exceed the widest integer", by simp only [convert, hE, ite_false, hR, hk', hDr]⟩
-      | some drep =>
-        left
-        have ⟨hRs, hRd, hRb⟩ := setDigits_spec hR
-        have hRs' : rep.signed = true := hRs
-        have hb1 : 1 ≤ rep.bits := by omega
-        have ⟨hDs, hDd, hDb⟩ := setDigits_spec hDr
-        have hDs' : drep.signed = true := hDs
-        have hd1 : 1 ≤ drep.bits := by omega
-        have ⟨hTs, hTL, hTR⟩ := usualArith_signed hRs' hDs' hb1 hd1
-        have hxR : rep.InRange x.value :=
-          inRange_of_fits (by omega) (fits_of_inRange hx) (fun h => by rw [hRs'] at h; cases h)
-        have hxT : (usualArith rep drep).InRange x.value :=
-          inRange_of_fits (by omega) (fits_of_inRange hx) (fun h => by rw [hTs] at h; cases h)
-        have hpR : drep.InRange (2^(E - x.exp).toNat) := two_pow_inRange hDs' (by omega)
-        have hpT : (usualArith rep drep).InRange (2^(E - x.exp).toNat) := two_pow_inRange hTs (by omega)
-        have hp0 : (2:Int)^(E - x.exp).toNat ≠ 0 := by have := two_pow_pos (E - x.exp).toNat; omega
-        have hqf := roundDiv_fits (modeOf c.mode) hp0 (fits_of_inRange hx)
-        have hqT : (usualArith rep drep).InRange (roundDiv (modeOf c.mode) x.value (2^(E - x.exp).toNat)) :=
-          inRange_of_fits (by omega) hqf (fun h => by rw [hTs] at h; cases h)
-        have hmid : -(2^(x.digits - (E - x.exp).toNat) - 1 : Int) ≤ roundDiv (modeOf c.mode) x.value (2^(E - x.exp).toNat) ∧
-            roundDiv (modeOf c.mode) x.value (2^(E - x.exp).toNat) ≤ 2^(x.digits - (E - x.exp).toNat) - 1 := by
-          rw [rmode_eq_modeOf] at hq
-          have := Nat.two_pow_pos (x.digits - (E - x.exp).toNat)
-          exact bound_of_natAbs_le (by omega)
-        simp only [convert, hE, ite_false, hR, hk', hDr, repOp_div_mixed c hb1 hd1 hxR hpR hxT hpT hp0 hqT,
-          Res.bind_ok, narrowDigits_fits c _ hmid, rescale, rmode_eq_modeOf]
-        rfl
+  rcases convertT_core c narrowest D E ⟨narrowest, x⟩ (typed_inRange hx) (fun h => by cases h) hnd with h | ⟨m, h⟩
+  · left
+    have hs : narrowest.signed = true := rfl
+    simp only [convert, h, hs, narrowTo_true]
+    cases narrowDigits c D (rescale (rmode c.mode) E x.exp x.value) <;> rfl
+  · right; exact ⟨m, by simp only [convert, h, map_ill]⟩
 
 theorem convert_agrees (c : Cfg) (D : Nat) (E : Int) (x : SNum) (hx : x.InRange) (hnd : ¬ KnownDefect c E x)
     (hwf : ∀ m, convert c D E x ≠ .ill m) :
@@ -473,13 +218,6 @@ theorem convert_agrees (c : Cfg) (D : Nat) (E : Int) (x : SNum) (hx : x.InRange)
 section shifts
 open Cnl.Overflow (shl_test_pos shl_test_neg shr_pos_bounds shr_neg_bounds cShr_ev cShl_ev mul_pow_ge mul_pow_le)
 
-theorem rep_facts {D : Nat} {rep : IntTy} (hR : repTy D narrowest = some rep) :
-    rep.signed = true ∧ D ≤ rep.digits ∧ 1 ≤ rep.bits ∧ rep.digits < rep.bits := by
-  have ⟨hs, hd, hb⟩ := setDigits_spec hR
-  have hs' : rep.signed = true := hs
-  have hb1 : 1 ≤ rep.bits := by omega
-  exact ⟨hs', Nat.le_trans (Nat.le_max_right _ _) hd, hb1, digits_lt_bits hs' hb1⟩
-
 theorem fits_shr {D : Nat} {v : Int} (hv : Fits D true v) (j : Nat) : Fits D true (v / 2^j) := by
   have hp := two_pow_pos j
   have hD := two_pow_pos D
@@ -493,8 +231,8 @@ theorem fits_shr {D : Nat} {v : Int} (hv : Fits D true v) (j : Nat) : Fits D tru
 /-- the run-time `>>` of the elastic layer is the floor quotient (counts up to the digit count) -/
 theorem elShift_shr_spec {D : Nat} {v : Int} (hv : Fits D true v) {j : Nat} (hj : j ≤ D) :
     elShift .shr D v (j : Int) = .ok (v / 2^j) ∨ ∃ m, elShift .shr D v (j : Int) = .ill m := by
-  cases hR : repTy D narrowest with
-  | none => right; exact ⟨"digits exceed the widest integer", by simp only [elShift, hR]⟩
+  cases hR : storage narrowest D with
+  | none => right; exact ⟨"no storage for the digits", by simp only [elShift, hR]⟩
   | some rep =>
     left
     have ⟨hs, hD, hb1, hlt⟩ := rep_facts hR
@@ -506,8 +244,8 @@ theorem elShift_shr_spec {D : Nat} {v : Int} (hv : Fits D true v) {j : Nat} (hj 
 /-- the run-time `<<` of the elastic layer is exact when the product fits the digits -/
 theorem elShift_shl_spec {D : Nat} {v : Int} {j : Nat} (hj : j ≤ D) (hf : Fits D true (v * 2^j)) :
     elShift .shl D v (j : Int) = .ok (v * 2^j) ∨ ∃ m, elShift .shl D v (j : Int) = .ill m := by
-  cases hR : repTy D narrowest with
-  | none => right; exact ⟨"digits exceed the widest integer", by simp only [elShift, hR]⟩
+  cases hR : storage narrowest D with
+  | none => right; exact ⟨"no storage for the digits", by simp only [elShift, hR]⟩
   | some rep =>
     left
     have ⟨hs, hD, hb1, hlt⟩ := rep_facts hR
@@ -518,17 +256,9 @@ theorem elShift_shl_spec {D : Nat} {v : Int} {j : Nat} (hj : j ≤ D) (hf : Fits
 
 theorem elNeg_spec {D : Nat} {v : Int} (hv : Fits D true v) :
     elNeg D v = .ok (-v) ∨ ∃ m, elNeg D v = .ill m := by
-  cases hR : repTy D narrowest with
-  | none =>
-    right
-    have : Elastic.neg ⟨D, narrowest, v⟩ = .ill "digits exceed the widest integer" := by
-      have hR' : repTy D ⟨narrowest.bits, true⟩ = none := hR
-      simp only [Elastic.neg, hR']
-    exact ⟨"digits exceed the widest integer", by simp only [elNeg, this]⟩
-  | some rep =>
-    left
-    have h := (neg_core ⟨D, narrowest, v⟩ hv (rep := rep) hR).1
-    simp only [elNeg, h]
+  rcases elNegE_spec ⟨D, narrowest, v⟩ hv with ⟨h, _⟩ | ⟨m, h⟩
+  · left; simp only [elNeg, h]
+  · right; exact ⟨"digits exceed the widest integer", by simp only [elNeg, h]⟩
 
 theorem natCast_sub_eq {a b : Nat} (h : b ≤ a) : ((a : Int) - (b : Int)) = ((a - b : Nat) : Int) := by omega
 
@@ -764,13 +494,13 @@ theorem shiftConstInt_shl_core (c : Cfg) (x : SNum) (k : Nat) (hx : x.InRange) :
       have := Nat.le_max_left (x.digits + k + 1) (x.digits + 1); omega
     rcases isOverflowShl_pos_spec hxf (Nat.le_add_right _ k) (Nat.le_refl _) with hp | ⟨m, hp⟩
     · rcases isOverflowShl_neg_spec hxf (Nat.le_add_right _ k) (Nat.le_refl _) with hn | ⟨m, hn⟩
-      · by_cases hwf : ∀ m, shlConst (toE x) k ≠ .ill m
+      · by_cases hwf : ∀ m, elShlConst (toE x) k ≠ .ill m
         · left
           obtain ⟨n, h⟩ := shl_toE x k hx hwf
           simp only [shiftConstInt, checkedShl, ht, ite_false, hp, hn, Res.bind_ok, hgt, hlt, decide_false,
             Bool.false_eq_true, hbig, h]
         · right
-          have ⟨m, hm⟩ : ∃ m, shlConst (toE x) k = .ill m := Classical.not_forall_not.mp hwf
+          have ⟨m, hm⟩ : ∃ m, elShlConst (toE x) k = .ill m := Classical.not_forall_not.mp hwf
           exact ⟨"digits exceed the widest integer", by
             simp only [shiftConstInt, checkedShl, ht, ite_false, hp, hn, Res.bind_ok, hgt, hlt, decide_false,
               Bool.false_eq_true, hbig, hm]⟩
@@ -779,20 +509,49 @@ theorem shiftConstInt_shl_core (c : Cfg) (x : SNum) (k : Nat) (hx : x.InRange) :
           Bool.false_eq_true, bind_ill]⟩
     · right; exact ⟨m, by simp only [shiftConstInt, checkedShl, ht, ite_false, hp, bind_ill]⟩
 
+/-- `x >> constant<k>` of the elastic layer (`k <` digits): `⌊x / 2^k⌋` in `digits − k` digits -/
+theorem elShrConst_spec (x : SNum) (k : Nat) (hx : x.InRange) (hk : k < x.digits) :
+    (∃ n, elShrConst (toE x) k = .ok ⟨x.digits - k, n, x.value / 2^k⟩) ∨ ∃ m, elShrConst (toE x) k = .ill m := by
+  cases hR : storage narrowest x.digits with
+  | none => right; exact ⟨"no storage for the digits", by simp only [elShrConst, toE, hR]⟩
+  | some rep =>
+    have ⟨hRs, hRd, hb1, _⟩ := rep_facts hR
+    have hPs : (promote rep).signed = true := promote_signed_of_signed hRs
+    have hxR : rep.InRange x.value :=
+      inRange_of_fits (by omega) (fits_of_inRange hx) (fun h => by rw [hRs] at h; cases h)
+    have hk' : ¬((k : Int) < 0 ∨ (k : Int) ≥ (promote rep).bits) := by
+      have := promote_bits_le rep
+      have := digits_le_bits rep
+      omega
+    have h1 : elShrConst (toE x) k =
+        (match storage ⟨32, true⟩ (x.digits - k) with
+         | some F => .ok ⟨x.digits - k, ⟨32, true⟩, F.wrap (x.value / 2^k)⟩
+         | none => .ill "no storage for the digits") := by
+      simp only [elShrConst, toE, hR, Cnl.convert, IntTy.wrap_id hb1 hxR, cBin, hk', ite_false, Int.toNat_natCast, hPs]
+      rfl
+    cases hF : storage ⟨32, true⟩ (x.digits - k) with
+    | none => right; exact ⟨_, by rw [h1, hF]⟩
+    | some F =>
+      left
+      have ⟨hFs, hFd, hFb1, _⟩ := rep_facts (D := x.digits - k) hF
+      have ⟨b1, b2, _⟩ := shr_bound (fits_of_inRange hx) (Nat.le_of_lt hk)
+      have hsF : F.InRange (x.value / 2^k) :=
+        inRange_of_digits' hFd b1 b2 (fun h => by rw [hFs] at h; cases h)
+      rw [hF] at h1
+      simp only [IntTy.wrap_id hFb1 hsF] at h1
+      exact ⟨_, h1⟩
+
 /-- **`x >> constant<k>` on a static_integer** (`k <` digits): `⌊x / 2^k⌋` in `digits − k` digits -/
 theorem shiftConstInt_shr_core (c : Cfg) (x : SNum) (k : Nat) (hx : x.InRange) (hk : k < x.digits) :
     shiftConstInt c .shr x k = .ok ⟨x.digits - k, x.exp, x.value / 2^k⟩ ∨ ∃ m, shiftConstInt c .shr x k = .ill m := by
   by_cases ht : c.tag = .nat
   · right; exact ⟨"native tag: not modelled", by simp only [shiftConstInt, ht, ite_true]⟩
   · have hk' : ¬ k > x.digits := by omega
-    by_cases hwf : ∀ m, shrConst (toE x) k ≠ .ill m
+    rcases elShrConst_spec x k hx hk with ⟨n, h⟩ | ⟨m, h⟩
     · left
-      obtain ⟨n, h, _⟩ := shrConst_wf (toE x) k hx hk hwf
       simp only [shiftConstInt, ht, ite_false, hk', h]
-      rfl
     · right
-      have ⟨m, hm⟩ : ∃ m, shrConst (toE x) k = .ill m := Classical.not_forall_not.mp hwf
-      exact ⟨"digits exceed the widest integer", by simp only [shiftConstInt, ht, ite_false, hk', hm]⟩
+      exact ⟨"digits exceed the widest integer", by simp only [shiftConstInt, ht, ite_false, hk', h]⟩
 
 /-- outside the open class the constant right shift stays within the digits it declares -/
 theorem shrConst_inRange {x : SNum} (hx : x.InRange) {k : Nat} (hk : k < x.digits) (hc : ¬ ShrBelowRange k x) :
